@@ -48,6 +48,8 @@ static covfie::array::array<CoordT, N> mkcoord(const std::vector<uint64_t> & c) 
     return r;
 }
 
+static std::map<std::vector<uint64_t>, std::map<std::vector<uint64_t>, uint64_t>> g_rowmajor;   // extents -> (coordinate -> row-major position), from TLC
+
 // (a) + (b) for one TLC case
 template <typename L, std::size_t N, typename CoordT, typename StoreT, std::size_t M>
 static void replay_case(const json & c) {
@@ -101,6 +103,33 @@ static void replay_case(const json & c) {
                 expect_eq("value-after-conversion/" + tag, (double)v.at(cc)[q], (double)(k * 4 + (long)q + 1), x);
             }
             ++k;
+        }
+        // C14 "stores coordinate c at flat position p": look at the storage block itself, not only at lookups
+        {
+            typename A::non_owning_data_t raw(f.backend().get_backend());
+            long kk = 0;
+            for (auto & e : c["box"]) {
+                uint64_t pos = e["idx"].get<uint64_t>();
+                json x = ctx; x["c"] = e["c"]; x["position"] = pos;
+                if (pos < got_size) expect_eq("storage-position/" + tag, (double)raw.at(pos)[0], (double)(kk * 4 + 1), x);
+                ++kk;
+            }
+            // ... and of a row-major field obtained by converting this one back (re-layout copy into row-major order)
+            if constexpr (std::is_same_v<CoordT, std::size_t>) {
+                covfie::field<RS> back(f);
+                typename A::non_owning_data_t rawb(back.backend().get_backend());
+                auto it = g_rowmajor.find(ext);
+                long k2 = 0;
+                if (it != g_rowmajor.end())
+                    for (auto & e : c["box"]) {
+                        auto pit = it->second.find(e["c"].get<std::vector<uint64_t>>());
+                        if (pit != it->second.end()) {
+                            json x = ctx; x["c"] = e["c"]; x["position"] = pit->second; x["obtained_by"] = "conversion to row-major";
+                            expect_eq("storage-position/converted-to-strided-from-" + tag, (double)rawb.at(pit->second)[0], (double)(k2 * 4 + 1), x);
+                        }
+                        ++k2;
+                    }
+            }
         }
         // write / read-back through the view of the curve-ordered field
         const bool small = c["box"].size() <= 16;
@@ -306,7 +335,9 @@ int main(int argc, char ** argv) {
     std::string mode = argv[1];
     if (mode == "replay") {
         reg_all();
-        for (auto & c : read_ndjson(argv[2])) {
+        auto all_cases = read_ndjson(argv[2]);
+        for (auto & c : all_cases) if (c["layout"] == "strided") { auto & m = g_rowmajor[c["ext"].get<std::vector<uint64_t>>()]; for (auto & e : c["box"]) m[e["c"].get<std::vector<uint64_t>>()] = e["idx"].get<uint64_t>(); }
+        for (auto & c : all_cases) {
             std::string key = c["layout"].get<std::string>() + "/" + std::to_string(c["ext"].size());
             auto it = g_table.find(key);
             if (it == g_table.end()) continue;   // other part
